@@ -11,10 +11,24 @@ read chunkings, EOF with or after the last bytes), decodes the payload handed to
 the store's decoders and compares status, item count, documents byte for byte, metadata sizes and the
 time of every ID; a sample of payloads is appended to a real store and fetched back by ID.
 
-The pinned code deviates from the property in two places (Finding1: a last unterminated over-size
-line of k*max bytes fails the whole request; Finding2: insane-json accepts lexically invalid JSON).
-The spec keeps the required behaviour as the reference and models each deviation as a guarded branch
-recorded in `dev`; a disagreement on a case whose `dev` is not empty gets the finding's signature."""
+Stamp stage (BulkIngest_stamp.cfg, Alpha = "stamp"): the time field's value is a concrete time stamp
+given by its structure (six components as digit strings, separators, fraction, zone, junk, truncation);
+the specification decides from the structure whether it is a time in a supported format and which
+instant it denotes (calendar arithmetic in TLA+), and transcribes parseESTime over the rendered text.
+Every component is taken to its bounds (year 0000..9999, month 00..13, day 00..32 against the month's
+length and leap years, hour 00/23/24/25/99, minute and second 00/59/60/99, fraction of 0..9 digits, zone
+hour/minute), every separator is replaced, every component gets a wrong width / a non-digit.  The stage
+runs with a tick of 365 days (drift 40, future drift 80 ticks) so that real calendar dates are inside
+the window whatever the wall clock says; the driver checks that clock against the interval the
+specification assumed.
+
+The pinned code deviates from the property in four places (Finding1: a last unterminated over-size
+line of k*max bytes fails the whole request; Finding2: insane-json accepts lexically invalid JSON;
+Finding3: a time more than ~292 years ahead is kept - documentDelayed negates a saturated
+time.Duration; Finding4: parseESTime lets time.Date normalise a day beyond the month's end, so
+"2025-02-30 ..." becomes March 2).  The spec keeps the required behaviour as the reference and models
+each deviation as a guarded branch recorded in `dev`; a disagreement on a case whose `dev` is not empty
+gets the finding's signature."""
 import concurrent.futures
 import json
 import os
@@ -31,7 +45,8 @@ def signature(m):
     dev = m.get("dev") or []
     what = m.get("what", "")
     if dev:
-        names = {1: "eof-while-skipping-oversize-line", 2: "lenient-json-stored"}
+        names = {1: "eof-while-skipping-oversize-line", 2: "lenient-json-stored", 3: "far-future-time-kept",
+                 4: "day-beyond-month-normalised"}
         return "c10:finding%s:%s" % ("+".join(str(d) for d in dev), "+".join(names.get(d, "?") for d in dev))
     return "c10:" + re.sub(r"[0-9]+", "N", what)[:60]
 
@@ -39,7 +54,7 @@ def signature(m):
 def tlc_jobs(ctx, jobs):
     """Run several TLC jobs concurrently (the models are small; each job is itself multi-threaded)."""
     res = {}
-    with concurrent.futures.ThreadPoolExecutor(max_workers=3) as ex:
+    with concurrent.futures.ThreadPoolExecutor(max_workers=4) as ex:
         futs = {name: ex.submit(vlib.run_tlc, ctx, "BulkIngest.tla", cfg, **kw) for name, cfg, kw in jobs}
         for name, f in futs.items():
             res[name] = f.result()
@@ -97,13 +112,18 @@ def run(ctx):
         return
 
     sc = ctx.scratch
-    files = {k: os.path.join(sc, "bulk-%s.jsonl" % k) for k in ("core", "corep", "time", "sim")}
+    files = {k: os.path.join(sc, "bulk-%s.jsonl" % k) for k in ("core", "corep", "time", "sim", "stamp")}
+    # the stamp stage: small for TLC (2 400 stamps x 2 document shapes x 6 framings), the same in both tiers
+    stamp_jobs = [("stamp", "BulkIngest_stamp.cfg", dict(case_file=files["stamp"], heap="3g", workers=8, timeout=900)),
+                  ("stampfixed", "BulkIngest_stamp_fixed.cfg", dict(heap="3g", workers=4, timeout=900)),
+                  ("stampteeth", "BulkIngest_stamp_strict.cfg", dict(heap="2g", workers=2, timeout=900, quiet=True))]
     if quick:
         jobs = [("core", "BulkIngest_core4.cfg", dict(case_file=files["core"], heap="3g", workers=8, timeout=900)),
                 ("time", "BulkIngest_time.cfg", dict(case_file=files["time"], heap="3g", workers=8, timeout=900)),
                 ("sim", "BulkIngest_sim.cfg", dict(case_file=files["sim"], heap="2g", workers=1, simulate="num=4000", depth=100, timeout=900)),
                 ("fixed", "BulkIngest_fixed.cfg", dict(heap="3g", workers=4, timeout=900)),
                 ("teeth", "BulkIngest_asis_strict.cfg", dict(heap="2g", workers=2, timeout=900, quiet=True))]
+        jobs = jobs[:2] + stamp_jobs + jobs[2:]
     else:
         jobs = [("core", "BulkIngest_core5.cfg", dict(case_file=files["core"], heap="6g", timeout=3000)),
                 ("corep", "BulkIngest_core4p.cfg", dict(case_file=files["corep"], heap="6g", workers=8, timeout=3000)),
@@ -111,9 +131,10 @@ def run(ctx):
                 ("sim", "BulkIngest_sim.cfg", dict(case_file=files["sim"], heap="3g", workers=4, simulate="num=80000", depth=100, timeout=3000)),
                 ("fixed", "BulkIngest_fixed4.cfg", dict(heap="4g", workers=8, timeout=3000)),
                 ("teeth", "BulkIngest_asis_strict.cfg", dict(heap="2g", workers=2, timeout=900, quiet=True))]
+        jobs = jobs[:3] + stamp_jobs + jobs[3:]
     res = tlc_jobs(ctx, jobs)
     for name, r in res.items():
-        if name == "teeth":
+        if name in ("teeth", "stampteeth"):
             continue
         if r.violated:
             # a counterexample inside the specification is not a verdict about seq-db
@@ -121,12 +142,14 @@ def run(ctx):
         vlib.require_tlc_ok(r, "BulkIngest " + name)
     # the strict invariant (no exception for findings) must FAIL on the as-is model: shows that
     # ImplMeetsProperty can fail and that the deviations are what makes the difference
-    if res["teeth"].violated != "ImplMeetsPropertyStrict":
-        raise vlib.Infra("vacuity guard: ImplMeetsPropertyStrict was expected to fail on the as-is model, TLC said %r" % res["teeth"].violated)
-    ctx.cov["tlc_runs"] = [t for t in ctx.cov["tlc_runs"] if "asis_strict" not in t["spec"]]
-    ctx.cov["states"] -= res["teeth"].distinct
-    ctx.cov["transitions"] -= res["teeth"].generated
-    ctx.cov["vacuity_guard"] = "BulkIngest_asis_strict.cfg: ImplMeetsPropertyStrict violated as expected (as-is model with findings enabled)"
+    for t in ("teeth", "stampteeth"):
+        if res[t].violated != "ImplMeetsPropertyStrict":
+            raise vlib.Infra("vacuity guard (%s): ImplMeetsPropertyStrict was expected to fail on the as-is model, TLC said %r" % (t, res[t].violated))
+        ctx.cov["states"] -= res[t].distinct
+        ctx.cov["transitions"] -= res[t].generated
+    ctx.cov["tlc_runs"] = [t for t in ctx.cov["tlc_runs"] if "_strict" not in t["spec"]]
+    ctx.cov["vacuity_guard"] = ("BulkIngest_asis_strict.cfg, BulkIngest_stamp_strict.cfg: ImplMeetsPropertyStrict violated as expected "
+                                "(as-is model with findings enabled)")
     ctx.cov["invariants"] = INVARIANTS
 
     selftest(ctx, drv, files["core"])
@@ -134,9 +157,11 @@ def run(ctx):
     # one max-document-size per driver process (esBulkDocReaderPool is process-global)
     small = [128, 192, 256, 333][ctx.seed % 4]
     large = [1000, 4096, 16384][ctx.seed % 3]
+    stamp_tick = ["-tick", str(365 * 86400 * 1000)]       # BulkIngest!TickDays; the driver cross-checks it with the cases
     if quick:
         plan = [("core", files["core"], small, 20, 1), ("core", files["core"], large, 50, 2 if large > 4096 else 1),
                 ("time", files["time"], [512, 1024, 2048][ctx.seed % 3], 100, 1),
+                ("stamp", files["stamp"], [1024, 512, 2048][ctx.seed % 3], 100, 1, stamp_tick),
                 ("sim", files["sim"], small, 5, 1), ("sim", files["sim"], large, 5, 1)]
     else:
         plan = []
@@ -146,17 +171,19 @@ def run(ctx):
         plan += [("corep", files["corep"], small, 50, 1), ("corep", files["corep"], large, 50, 1),
                  ("core", files["core"], 16384, 50, 8), ("core", files["core"], 131072, 50, 64),
                  ("sim", files["sim"], 16384, 20, 4), ("sim", files["sim"], 131072, 20, 40),
-                 ("time", files["time"], 512, 100, 1), ("time", files["time"], 2048, 100, 1), ("time", files["time"], 131072, 100, 16)]
+                 ("time", files["time"], 512, 100, 1), ("time", files["time"], 2048, 100, 1), ("time", files["time"], 131072, 100, 16),
+                 ("stamp", files["stamp"], 333, 100, 1, stamp_tick), ("stamp", files["stamp"], 1024, 100, 1, stamp_tick),
+                 ("stamp", files["stamp"], 16384, 100, 4, stamp_tick)]
     tot = {"cases": 0, "evals": 0, "nontrivial": 0}
     extra = {"infeasible": 0, "late": 0, "impl_agree": 0, "e2e": 0, "gzip": 0, "stored_docs": 0}
     runs = []
     by_sig = {}
-    for label, path, mx, e2e, every in plan:
+    for label, path, mx, e2e, every, *more in plan:
         src = path
         if every > 1:
             src = os.path.join(sc, "sub-%s-%d.jsonl" % (label, mx))
             subsample(path, src, every)
-        args = ["-workers", ncpu, "-max", str(mx), "-e2e", str(e2e)]
+        args = ["-workers", ncpu, "-max", str(mx), "-e2e", str(e2e)] + (more[0] if more else [])
         rc, outs, err = vlib.run_driver(drv, args, stdin_path=src, timeout=3000, ok_codes=range(0, 256))
         summ = next((o for o in outs if o.get("summary")), None)
         if rc != 0 or summ is None:
@@ -192,7 +219,7 @@ def run(ctx):
         raise vlib.Infra("more than 20%% of the cases could not be realised at the chosen sizes: %s" % extra)
     if extra["late"] * 100 > tot["cases"]:
         raise vlib.Infra("more than 1%% of the requests took longer than two ticks (time checks skipped): %s" % extra)
-    for label, path in (("core", files["core"]), ("time", files["time"]), ("sim", files["sim"])):
+    for label, path in (("core", files["core"]), ("time", files["time"]), ("sim", files["sim"]), ("stamp", files["stamp"])):
         with open(path) as fh:
             for i, ln in enumerate(fh):
                 if i % 1009 == 500:
@@ -214,7 +241,10 @@ def run(ctx):
         "core alphabet (31 line symbols: create/index/other action lines incl. edge and over-size, blank, objects of 2, mid, M-2, M-1, M, M+1, "
         "2M, 2M+1 bytes, 5 time variants, non-object, broken JSON at mid/edge/over-size, lexically invalid JSON) x LF|CRLF x last line "
         "terminated|not x EOF with|after the last bytes; every single document over timestamp/time/ts x {absent, unparsable, parsable at 7 "
-        "offsets around both drifts x 3 formats} (12167 documents). Sampled (seeded -simulate): bodies of <= 14 lines over the full alphabet "
+        "offsets around both drifts x 3 formats} (12167 documents); every time stamp of the stamp alphabet (2384 stamps: year x month x "
+        "day palettes 9 x 6 x 7 at two times of day, hour x minute x second palettes 5 x 4 x 4 on three dates, fractions, zone offsets, "
+        "every separator replaced, wrong widths / non-digits per component, junk around, zone on the wrong layout, truncations; ES and "
+        "RFC 3339 layout) alone in `timestamp` and as `time` behind an unparsable `timestamp` and before a valid `ts`. Sampled (seeded -simulate): bodies of <= 14 lines over the full alphabet "
         "(12 sizes, 15 time variants, mixed terminators, more than 5 action lines, lines after the failure). Each case is replayed with "
         "seeded concrete bytes at %s max-document-sizes; evaluations = requests sent through BulkHandler.ServeHTTP; non-trivial = distinct "
         "cases that stored at least one document" % (4 if quick else 5, len(plan)))
@@ -234,4 +264,10 @@ def run(ctx):
         "line shifts the chunking, so Finding1 does not always trigger where the model predicts it (the code is then simply correct; "
         "counted in cases_where_code_equals_transcription)",
         "'not valid JSON' is read as RFC 8259 (encoding/json.Valid); lexically invalid lines the decoder accepts are reported as Finding2",
+        "stamp stage: 'parses' is read as 'is a time in one of consts.TimeFormats': fixed widths, components in range, the day within "
+        "the month, fraction of 1..9 digits behind '.', RFC 3339 zone Z or +-hh:mm with hh <= 23, mm <= 59. Values on which Go's "
+        "time.Parse is more lenient than that are not emitted (one-digit hour in the RFC layouts, ',' before the fraction, more than 9 "
+        "fraction digits, zone hour 24, zone minute 60); the RFC layouts are served by the standard library and are transcribed as the "
+        "reference. The window is decided for a tick of 365 days and any wall clock between 2026-01-01 and 2035-12-31 (checked by the "
+        "driver); no stamp lies within a day of a window edge",
     ]
